@@ -239,3 +239,288 @@ theorem linkingVerbs_ok (env : Env) (src : List Char) (chunk : List Tok) (ho : O
   linkingGo_ok env src chunk ho.2 none
 
 end Harper.Rules2
+
+namespace Harper.Rules2
+open Harper Harper.Chunks Harper.Rules Harper.Leaves
+
+/-! ## never out of fuel: the thirteen struct rules of `Model/Rules2.lean` (w26) -/
+
+theorem spanNew_noFuel (s e : Nat) : Span.new s e ≠ .error .outOfFuel := by
+  intro h; unfold Span.new at h; split at h <;> cases h
+
+theorem walkE_nf (f : List Tok → List Tok → Except Panic (List RuleLint)) (hf : ∀ pre suf, f pre suf ≠ .error .outOfFuel) :
+    ∀ (ts pre : List Tok), walkE f pre ts ≠ .error .outOfFuel
+  | [], _ => by intro h; simp only [walkE] at h; cases h
+  | t :: ts, pre => by
+    intro h
+    simp only [walkE] at h
+    split at h
+    · rename_i e hc; cases h; exact hf _ _ hc
+    · split at h
+      · rename_i e hc; cases h; exact walkE_nf f hf ts _ hc
+      · cases h
+
+theorem ruleSpelledNumbers_nf (env : Env) (src : List Char) (toks : List Tok) : ruleSpelledNumbers env src toks ≠ .error .outOfFuel :=
+  collectE_nf _ _ fun t _ => by
+    intro h
+    simp only [spelledNumbersTok] at h
+    repeat' split at h
+    all_goals cases h
+
+theorem ruleCapitalizePersonalPronouns_nf (env : Env) (src : List Char) (toks : List Tok) :
+    ruleCapitalizePersonalPronouns env src toks ≠ .error .outOfFuel :=
+  collectE_nf _ _ fun t _ => by
+    intro h
+    simp only [capitalizePronounTok] at h
+    split at h
+    · cases h
+    · split at h
+      · rename_i e hc; cases h; exact getContent_nf _ _ hc
+      · split at h <;> cases h
+
+theorem ruleAvoidCurses_nf (env : Env) (src : List Char) (toks : List Tok) : ruleAvoidCurses env src toks ≠ .error .outOfFuel :=
+  collectE_nf _ _ fun t _ => by
+    intro h
+    simp only [avoidCursesTok] at h
+    split at h <;> cases h
+
+theorem ruleWordPressDotcom_nf (env : Env) (src : List Char) (toks : List Tok) : ruleWordPressDotcom env src toks ≠ .error .outOfFuel :=
+  collectE_nf _ _ fun t _ => by
+    intro h
+    simp only [wordPressTok] at h
+    split at h
+    · cases h
+    · split at h
+      · rename_i e hc; cases h; exact getContent_nf _ _ hc
+      · split at h <;> cases h
+
+theorem linkingAt_nf (env : Env) (src : List Char) (prev : Option Tok) (t : Tok) : linkingAt env src prev t ≠ .error .outOfFuel := by
+  intro h
+  simp only [linkingAt] at h
+  split at h
+  · split at h
+    · cases h
+    · split at h
+      · split at h
+        · rename_i e hc; cases h; exact getContent_nf _ _ hc
+        · cases h
+      · cases h
+  · cases h
+
+theorem linkingGo_nf (env : Env) (src : List Char) : ∀ (ts : List Tok) (prev : Option Tok), linkingGo env src prev ts ≠ .error .outOfFuel
+  | [], _ => by intro h; simp only [linkingGo] at h; cases h
+  | t :: ts, prev => by
+    intro h
+    simp only [linkingGo] at h
+    split at h
+    · rename_i e hc; cases h; exact linkingAt_nf _ _ _ _ hc
+    · split at h
+      · rename_i e hc; cases h; exact linkingGo_nf env src ts _ hc
+      · cases h
+
+theorem ruleLinkingVerbs_nf (env : Env) (src : List Char) (toks : List Tok) : ruleLinkingVerbs env src toks ≠ .error .outOfFuel :=
+  collectE_nf _ _ fun p _ => linkingGo_nf env src p none
+
+theorem commaAt_nf (src : List Char) (pre suf : List Tok) : commaAt src pre suf ≠ .error .outOfFuel := by
+  intro h
+  unfold commaAt at h
+  split at h
+  · cases h
+  · split at h
+    · cases h
+    · split at h
+      · rename_i e hc; cases h; exact getContent_nf _ _ hc
+      · split at h
+        · cases h
+        · split at h
+          · cases h
+          · cases h
+          · split at h <;> cases h
+          · split at h
+            · cases h
+            · split at h
+              · rename_i e hc; cases h; exact spanNew_noFuel _ _ hc
+              · cases h
+
+theorem ruleCommaFixes_nf (env : Env) (src : List Char) (toks : List Tok) : ruleCommaFixes env src toks ≠ .error .outOfFuel :=
+  walkE_nf _ (commaAt_nf src) toks []
+
+theorem mergeLint_nf (c : Bool) (a b : Tok) (m : List Char) (code : Nat) : mergeLint c a b m code ≠ .error .outOfFuel := by
+  intro h
+  simp only [mergeLint] at h
+  split at h
+  · split at h
+    · rename_i e hc; cases h; exact spanNew_noFuel _ _ hc
+    · cases h
+  · cases h
+
+theorem mergeAt_nf (env : Env) (src : List Char) (pre suf : List Tok) : mergeAt env src pre suf ≠ .error .outOfFuel := by
+  intro h
+  unfold mergeAt at h
+  split at h
+  · split at h
+    · cases h
+    · split at h
+      · rename_i e hc; cases h; exact getContent_nf _ _ hc
+      · split at h
+        · rename_i e hc; cases h; exact getContent_nf _ _ hc
+        · split at h
+          · cases h
+          · split at h
+            · cases h
+            · dsimp only at h
+              split at h
+              · rename_i e hc; cases h; exact mergeLint_nf _ _ _ _ _ hc
+              · split at h
+                · rename_i e hc; cases h; exact mergeLint_nf _ _ _ _ _ hc
+                · cases h
+  · cases h
+
+theorem ruleMergeWords_nf (env : Env) (src : List Char) (toks : List Tok) : ruleMergeWords env src toks ≠ .error .outOfFuel :=
+  walkE_nf _ (mergeAt_nf env src) toks []
+
+theorem adjOfATail_nf (src : List Char) (adj : Tok) (adjc : List Char) (rest : List Tok) :
+    adjOfATail src adj adjc rest ≠ .error .outOfFuel := by
+  intro h
+  unfold adjOfATail at h
+  split at h
+  · split at h
+    · cases h
+    · split at h
+      · cases h
+      · split at h
+        · rename_i e hc; cases h; exact getContent_nf _ _ hc
+        · split at h
+          · cases h
+          · split at h
+            · cases h
+            · split at h
+              · cases h
+              · split at h
+                · rename_i e hc; cases h; exact getContent_nf _ _ hc
+                · split at h
+                  · cases h
+                  · split at h
+                    · rename_i e hc; cases h; exact getContent_nf _ _ hc
+                    · split at h
+                      · rename_i e hc; cases h; exact getContent_nf _ _ hc
+                      · split at h
+                        · rename_i e hc; cases h; exact spanNew_noFuel _ _ hc
+                        · cases h
+  · cases h
+
+theorem adjOfAAt_nf (env : Env) (src : List Char) (pre suf : List Tok) : adjOfAAt env src pre suf ≠ .error .outOfFuel := by
+  intro h
+  unfold adjOfAAt at h
+  split at h
+  · cases h
+  · split at h
+    · cases h
+    · split at h
+      · rename_i e hc; cases h; exact getContent_nf _ _ hc
+      · split at h
+        · cases h
+        · split at h
+          · cases h
+          · split at h
+            · cases h
+            · exact adjOfATail_nf _ _ _ _ h
+
+theorem ruleAdjectiveOfA_nf (env : Env) (src : List Char) (toks : List Tok) : ruleAdjectiveOfA env src toks ≠ .error .outOfFuel :=
+  walkE_nf _ (adjOfAAt_nf env src) toks []
+
+theorem thenE_nf (a b : Except Panic (List RuleLint)) (ha : a ≠ .error .outOfFuel) (hb : b ≠ .error .outOfFuel) :
+    thenE a b ≠ .error .outOfFuel := by
+  intro h
+  unfold thenE at h
+  split at h
+  · cases h; exact ha rfl
+  · split at h
+    · cases h; exact hb rfl
+    · cases h
+
+theorem checkStem_nf (env : Env) (ends : Bool) (prep word : Tok) (prepTo stem : List Char) :
+    checkStem env ends prep word prepTo stem ≠ .error .outOfFuel := by
+  intro h
+  simp only [checkStem] at h
+  split at h
+  · split at h
+    · rename_i e hc; cases h; exact spanNew_noFuel _ _ hc
+    · cases h
+  · cases h
+
+theorem inflectedAt_nf (env : Env) (src : List Char) (pre suf : List Tok) : inflectedAt env src pre suf ≠ .error .outOfFuel := by
+  intro h
+  unfold inflectedAt at h
+  split at h
+  · split at h
+    · cases h
+    · split at h
+      · cases h
+      · split at h
+        · rename_i e hc; cases h; exact getContent_nf _ _ hc
+        · split at h
+          · cases h
+          · split at h
+            · rename_i e hc; cases h; exact getContent_nf _ _ hc
+            · split at h
+              · cases h
+              · exact thenE_nf _ _ (thenE_nf _ _ (checkStem_nf _ _ _ _ _ _) (checkStem_nf _ _ _ _ _ _))
+                  (thenE_nf _ _ (checkStem_nf _ _ _ _ _ _) (checkStem_nf _ _ _ _ _ _)) h
+  · cases h
+
+theorem ruleInflectedVerbAfterTo_nf (env : Env) (src : List Char) (toks : List Tok) :
+    ruleInflectedVerbAfterTo env src toks ≠ .error .outOfFuel :=
+  walkE_nf _ (inflectedAt_nf env src) toks []
+
+theorem oxfordMatch_nf (env : Env) (src : List Char) (m : List Tok) : oxfordMatch env src m ≠ .error .outOfFuel := by
+  intro h
+  simp only [oxfordMatch] at h
+  split at h
+  · cases h
+  · split at h
+    · cases h
+    · split at h <;> cases h
+
+theorem ruleOxfordComma_nf (env : Env) (src : List Char) (toks : List Tok) : ruleOxfordComma env src toks ≠ .error .outOfFuel :=
+  collectE_nf _ _ fun sent _ => runOnChunkGo_nf _ (matcher_nf env oxfordPat) _ src (oxfordMatch_nf env src) sent _
+
+theorem noOxfordMatch_nf (env : Env) (src : List Char) (m : List Tok) : noOxfordMatch env src m ≠ .error .outOfFuel := by
+  intro h
+  simp only [noOxfordMatch] at h
+  split at h
+  · cases h
+  · split at h <;> cases h
+
+theorem ruleNoOxfordComma_nf (env : Env) (src : List Char) (toks : List Tok) : ruleNoOxfordComma env src toks ≠ .error .outOfFuel :=
+  collectE_nf _ _ fun sent _ => runOnChunkGo_nf _ (matcher_nf env noOxfordPat) _ src (noOxfordMatch_nf env src) sent _
+
+theorem widelyMatch_nf (env : Env) (src : List Char) (m : List Tok) : widelyMatch env src m ≠ .error .outOfFuel := by
+  intro h
+  simp only [widelyMatch] at h
+  split at h
+  · cases h
+  · split at h
+    · rename_i e hc; cases h; exact getContent_nf _ _ hc
+    · cases h
+
+theorem ruleWidelyAccepted_nf (env : Env) (src : List Char) (toks : List Tok) : ruleWidelyAccepted env src toks ≠ .error .outOfFuel :=
+  collectE_nf _ _ fun c _ => runOnChunkGo_nf _ (matcher_nf env widelyPat) _ src (widelyMatch_nf env src) c _
+
+theorem theHowWhyMatch_nf (env : Env) (src : List Char) (m : List Tok) : theHowWhyMatch env src m ≠ .error .outOfFuel := by
+  intro h
+  simp only [theHowWhyMatch] at h
+  split at h
+  · rename_i e hc; cases h; exact sliceE_nf _ _ _ hc
+  · split at h
+    · cases h
+    · split at h
+      · cases h
+      · split at h
+        · rename_i e hc; cases h; exact getContent_nf _ _ hc
+        · cases h
+
+theorem ruleTheHowWhy_nf (env : Env) (src : List Char) (toks : List Tok) : ruleTheHowWhy env src toks ≠ .error .outOfFuel :=
+  collectE_nf _ _ fun c _ => runOnChunkGo_nf _ (matcher_nf env theHowWhyPat) _ src (theHowWhyMatch_nf env src) c _
+
+end Harper.Rules2
